@@ -38,7 +38,7 @@ Anon(name, v) == [F(name, v) EXCEPT !.anon = TRUE]
 GoFloats == { <<48>>, <<49,46,53>>, <<49,101,43,50,49>>, <<49,101,45,55>>, <<49,101,45,49,48>>, <<49,48,48>>, <<45,48>>, <<48,46,49>> }
 \*              0       1.5          1e+21                 1e-7             1e-10                100        -0        0.1
 
-nA == <<65>>  nB == <<66>>  nC == <<67>>  nx == <<120>>  nAb == <<65, 98>>
+nA == <<65>>  nB == <<66>>  nC == <<67>>  nx == <<120>>  nAb == <<65, 98>>  nS == <<83>>
 Scalars == { Nil, B(TRUE), B(FALSE), I(0), I(7), I(-12), Fl(<<49,46,53>>), Fl(<<48>>), Fl(<<49,101,43,50,49>>), Fl(<<49,101,45,55>>), Fl(<<50,46,53,101,45,49,48>>), Fl(<<45,48>>),
              S(<<>>), S(<<97>>), S(<<60, 38, 62>>), S(<<34, 92, 10, 1>>), S(<<195, 169, 226, 128, 168>>),
              S(<<255, 97>>), S(<<226, 130>>), S(<<240, 159, 152, 128>>) }
@@ -53,7 +53,7 @@ Structs(E) ==
   \cup { St(<<Tn(F(nA, x), <<110>>), F(nx, I(1)), Dash(F(nB, I(7)))>>) : x \in E }                     \* renamed, unexported, "-"
   \cup { St(<<Om(F(nA, x)), Om(Tn(F(nB, y), <<98>>))>>) : x \in E, y \in {I(0), I(7), S(<<>>), NilP(I(0)), P(I(0))} }   \* omitempty
   \cup { St(<<Qs(F(nA, x)), F(nC, B(TRUE))>>) : x \in {B(TRUE), I(-12), Fl(<<49,46,53>>), Fl(<<49,101,45,55>>), Fl(<<49,101,43,50,49>>), Fl(<<50,46,53,101,45,49,48>>),
-                                                            S(<<97>>), S(<<60>>), Sl(<<>>), P(Fl(<<49,101,45,55>>))} }   \* ,string
+                                                            S(<<97>>), S(<<60>>), S(<<195, 169, 226, 128, 168>>), S(<<255, 34>>), P(S(<<233>>)), Sl(<<>>), P(Fl(<<49,101,45,55>>))} }   \* ,string
   \cup { St(<<F(nC, I(1)), Anon(nAb, St(<<F(nA, x), F(nx, I(2))>>)), F(nB, I(3))>>) : x \in {I(7), Nil, S(<<97>>)} }   \* embedded
   \cup { St(<<F(nA, P(St(<<F(nB, x)>>)))>>) : x \in {I(7), NilSl} }
   \cup { St(<<>>) }
@@ -69,7 +69,10 @@ MaFail == [g |-> "marsh", text |-> <<49>>, fail |-> TRUE]
 Tx(t) == [g |-> "textm", text |-> t]
 Rd(x) == [g |-> "redir", v |-> x]
 Tr(b) == [g |-> "trust", b |-> b]
-Typed == { NilTSl(I(0)), TSl(I(0), <<>>), TSl(I(0), <<I(7), I(-12)>>), TSl(S(<<>>), <<S(<<60>>), S(<<>>)>>), TSl(NilP(I(0)), <<NilP(I(0)), P(I(7))>>),
+Ifc(x) == [g |-> "iface", v |-> x]
+Typed == { St(<<Om(F(nA, Ifc(B(FALSE)))), Om(F(nB, Ifc(I(0)))), Om(F(nC, Nil)), Qs(F(nx, I(1)))>>), St(<<Qs(F(nA, Ifc(I(7)))), Qs(F(nB, Nm(<<49,46,48>>))), Qs(F(nC, Nm(<<>>))), Qs(F(nS, P(Nm(<<48,46,49,48>>))))>>),
+           Nm(<<>>), Mp(<<KV(<<98>>, St(<<F(nB, I(1)), F(nA, I(2))>>)), KV(<<97>>, Sl(<<St(<<F(nC, I(1)), F(nA, Nil)>>)>>))>>),   \* structs inside a map keep their order
+           TMp(St(<<F(nB, I(0)), F(nA, I(0))>>), <<KV(<<122>>, St(<<F(nB, I(1)), F(nA, I(2))>>)), KV(<<>>, St(<<F(nB, I(3)), F(nA, I(4))>>))>>), NilTSl(I(0)), TSl(I(0), <<>>), TSl(I(0), <<I(7), I(-12)>>), TSl(S(<<>>), <<S(<<60>>), S(<<>>)>>), TSl(NilP(I(0)), <<NilP(I(0)), P(I(7))>>),
            NilTMp(I(0)), TMp(I(0), <<>>), TMp(I(0), <<KV(<<98>>, I(1)), KV(<<97>>, I(2))>>), TMp(NilSl, <<KV(<<60>>, Sl(<<I(1)>>)), KV(<<>>, NilSl)>>),
            Nm(<<49,46,48>>), Nm(<<49,101,52,48,48>>), Nm(<<45,48>>),
            TSl(Nm(<<48>>), <<Nm(<<49>>), Nm(<<48,46,49,48>>)>>) }
@@ -103,7 +106,7 @@ HasCustom(x) ==
   CASE x.g \in {"marsh", "textm", "redir", "trust"} -> TRUE
     [] x.g \in {"slice", "tslice"} -> \E i \in 1..Len(x.e) : HasCustom(x.e[i])
     [] x.g \in {"map", "imap", "tmap"} -> \E i \in 1..Len(x.m) : HasCustom(x.m[i].v)
-    [] x.g = "ptr" -> HasCustom(x.v)
+    [] x.g \in {"ptr", "iface"} -> HasCustom(x.v)
     [] x.g = "struct" -> \E i \in 1..Len(x.f) : HasCustom(x.f[i].v)
     [] OTHER -> FALSE
 RECURSIVE HasTrust(_)
@@ -112,7 +115,7 @@ HasTrust(x) ==
     [] x.g = "redir" -> HasTrust(x.v)
     [] x.g \in {"slice", "tslice"} -> \E i \in 1..Len(x.e) : HasTrust(x.e[i])
     [] x.g \in {"map", "imap", "tmap"} -> \E i \in 1..Len(x.m) : HasTrust(x.m[i].v)
-    [] x.g = "ptr" -> HasTrust(x.v)
+    [] x.g \in {"ptr", "iface"} -> HasTrust(x.v)
     [] x.g = "struct" -> \E i \in 1..Len(x.f) : HasTrust(x.f[i].v)
     [] OTHER -> FALSE
 \* (what a TrustMarshaler writes is its own business: only values without one are claimed to give well-formed output)
